@@ -754,6 +754,8 @@ def _gen_block(rng, kind):
         return {'kind': kind, 'text': ('\ufeff' if rng.chance(0.12) else '') + ''.join('0x%x\t%s\n' % (rng.randrange(1 << 32) & ~3, rng.ident())
                                                for _ in range(rng.randint(0, 3)))}
     blk = {'kind': 'unknown', 'hex': rng.randbytes(rng.randint(0, 20)).hex()}
+    if rng.chance(0.06):
+        blk['hex'] = rng.randbytes(rng.pick([2000, 4096, 9000])).hex()        # a section nobody interprets may be big
     if rng.chance(0.5):
         # a tag no section uses that shares its first or its last four bytes with one that a section does use
         known = sorted(v for k_, v in writer.TAGS.items() if k_ != 'unknown')
